@@ -1656,6 +1656,7 @@ class SolverCases(CaseTable):
         super().__init__(filename, format_version,
                          'solver_iterations', 'iteration_coordinate', giter,
                          prom2abs, abs2prom, abs2meta, conns, var_info)
+        self._row_sources = None
 
     def _get_source(self, iteration_coordinate):
         """
@@ -1671,6 +1672,22 @@ class SolverCases(CaseTable):
         str
             The pathname of the solver that is the source of the iteration.
         """
+        if self._format_version >= 5:
+            # the recorder stored which solver recorded the case.  The coordinate alone cannot tell a
+            # line search from nested frames of the nonlinear solver itself (NonlinearBlockJac,
+            # Newton_subsolve), which also add two nodes.
+            if self._row_sources is None:
+                keys = self.list_cases()
+                self._row_sources = srcs = {}
+                for global_iter in self._global_iterations:
+                    record_type, row, source = global_iter[1], global_iter[2], global_iter[3]
+                    if record_type == 'solver' and 0 < row <= len(keys):
+                        srcs[keys[row - 1]] = source if source.startswith('root') else 'root.' + source
+            try:
+                return self._row_sources[iteration_coordinate]
+            except KeyError:
+                pass
+
         source_system = get_source_system(iteration_coordinate)
 
         system_solve = source_system.split('.')[-1] + '._solve_nonlinear'
